@@ -836,6 +836,7 @@ func (f *vectorStructAccessor) Place(s *slip.Scope, args slip.List, value slip.O
 	if f.readOnly {
 		slip.ErrorPanic(s, 0, "cannot setf read-only slot")
 	}
+	slip.CheckArgCount(s, 0, f, args, 1, 1)
 	vec, ok := args[0].(*slip.Vector)
 	if !ok {
 		slip.TypePanic(s, 0, "vector", args[0], "vector")
@@ -865,6 +866,7 @@ func (f *listStructAccessor) Place(s *slip.Scope, args slip.List, value slip.Obj
 	if f.readOnly {
 		slip.ErrorPanic(s, 0, "cannot setf read-only slot")
 	}
+	slip.CheckArgCount(s, 0, f, args, 1, 1)
 	list, ok := args[0].(slip.List)
 	if !ok {
 		slip.TypePanic(s, 0, "list", args[0], "list")
